@@ -84,7 +84,7 @@ theorem extract_faithful_int (str : List Nat) (base0 : Nat) (hb : base0 ≤ 36) 
     let r := extractParts s.1 s.2
     (s.1.digits = [] ∧ r = (p.mant.val * p.base ^ e, 0)) ∨
     (∃ G : Nat, r.2 + 31 = (G : Int) ∧ FaithfulN r.1 (p.mant.val * p.base ^ e * 2 ^ 31) (2 ^ G) ∧
-      2 ^ 52 ≤ r.1 ∧ r.1 < 2 ^ 53) := by
+      NearestUpN r.1 (p.mant.val * p.base ^ e * 2 ^ 31) (2 ^ G) ∧ 2 ^ 52 ≤ r.1 ∧ r.1 < 2 ^ 53) := by
   obtain ⟨hi, h1, h36⟩ := parseNumber_inv str base0 hb p h
   simp only
   rw [scale_pos_eq]
@@ -108,6 +108,7 @@ theorem extract_faithful_frac (str : List Nat) (base0 : Nat) (hb : base0 ≤ 36)
     let r := extractParts s.1 s.2
     ∃ G : Nat, r.2 + 31 * ((shamtBase + a / shamtDiv - 2 : Nat) : Int) = (G : Int) ∧
       FaithfulN r.1 (p.mant.val * bigBase ^ (shamtBase + a / shamtDiv - 2)) (p.base ^ a * 2 ^ G) ∧
+      NearestUpN r.1 (p.mant.val * bigBase ^ (shamtBase + a / shamtDiv - 2)) (p.base ^ a * 2 ^ G) ∧
       2 ^ 52 ≤ r.1 ∧ r.1 < 2 ^ 53 := by
   obtain ⟨hi, h1, h36⟩ := parseNumber_inv str base0 hb p h
   have hnz' : p.mant.digits = [] → p.mant.first ≠ 0 := by intro hd hf; exact hnz ⟨by simp [hd], hf⟩
@@ -118,9 +119,9 @@ theorem extract_faithful_frac (str : List Nat) (base0 : Nat) (hb : base0 ≤ 36)
   have hlen := scaleNeg_length p.mant p.base a h1 h36 hi hnz' hv
   have htop := scaleNeg_topnz p.mant p.base a h1 h36 hi hnz' hv
   have hfirst : (scaleNeg p.mant p.base a).first < bigBase := scaleNeg_first_lt p.mant p.base a h1 h36 hi
-  obtain ⟨G, he, hF, hlo, hhi⟩ := extract_faithful_neg_core (scaleNeg p.mant p.base a)
+  obtain ⟨G, he, hF, hN, hlo, hhi⟩ := extract_faithful_neg_core (scaleNeg p.mant p.base a)
     (-(((shamtBase + a / shamtDiv) * nbit : Nat) : Int)) _ _ (Nat.pow_pos h1) hfirst hl htop hlen hu
-  refine ⟨G, ?_, hF, hlo, hhi⟩
+  refine ⟨G, ?_, hF, hN, hlo, hhi⟩
   rw [he]
   have h2 : 2 ≤ shamtBase + a / shamtDiv := le_trans (by decide : 2 ≤ shamtBase) (Nat.le_add_right _ _)
   generalize shamtBase + a / shamtDiv = S at *
@@ -136,6 +137,14 @@ theorem extract_faithful_frac (str : List Nat) (base0 : Nat) (hb : base0 ≤ 36)
     (i.e. is representable with the exponent of its binade), the significand handed to `ldexp` is exactly the value. -/
 theorem exact_when_representable (t N D : Nat) (h : FaithfulN t N D) (hrep : N % D = 0) : t * D = N :=
   h.exact hrep
+
+/-- ★ the reader is in fact *correctly rounded* before `ldexp` (`NearestUpN` in `extract_faithful_*`: nearest, exact ties
+    away from zero — not IEEE ties-to-even, still one of the two adjacent doubles): whenever the exact value is strictly
+    within half a grid step of a grid point `T`, the significand handed to `ldexp` is `T`.  This is the reading half of the
+    17-digit round trip. -/
+theorem nearest_unique (t N D T : Nat) (hD : 0 < D) (h : NearestUpN t N D)
+    (hlo : 2 * T * D < 2 * N + D) (hhi : 2 * N < 2 * T * D + D) : t = T :=
+  h.unique hD hlo hhi
 
 /-- never off by one grid step (one ulp): |t·D − N| < D -/
 theorem within_one_ulp (t N D : Nat) (hD : 0 < D) (h : FaithfulN t N D) : t * D < N + D ∧ N < t * D + D :=
